@@ -1769,6 +1769,8 @@ def _simplify(op):
     for i, x in enumerate(op):
         if i == 0:
             continue
+        if i == 1 and op[0] == "pull" and len(op) == 3 and x in (1, 2, 4, 8, 11, 13, 15, 20):
+            continue   # a TLS handshake type (or a host_cid_length with such a value): halving it changes which decoder runs
         if isinstance(x, str) and x:
             for y in (x[:-2], x[2:], "00" * (len(x) // 2)):
                 if y != x:
